@@ -229,26 +229,167 @@ def preamble(prog, verbose):
     return out
 
 
+def _scan(text):
+    """[(index, char, depth)] for the characters of text that are outside string literals; depth counts ( { [."""
+    out = []
+    depth = 0
+    instr = False
+    esc = False
+    for i, ch in enumerate(text):
+        if esc:
+            esc = False
+            continue
+        if ch == "_":
+            esc = True
+            continue
+        if instr:
+            if ch == '"':
+                instr = False
+            continue
+        if ch == '"':
+            instr = True
+            continue
+        if ch in ")}]":
+            depth -= 1
+        out.append((i, ch, depth))
+        if ch in "({[":
+            depth += 1
+    return out
+
+
+def _brace_group(text):
+    """The last top-level { ... } group of a form if only `;' or nothing follows it: (open index, close index)."""
+    sc = _scan(text)
+    close = [i for (i, ch, d) in sc if ch == "}" and d == 0]
+    if not close or text[close[-1] + 1:].strip() not in ("", ";"):
+        return None
+    c = close[-1]
+    opens = [i for (i, ch, d) in sc if ch == "{" and d == 0 and i < c]
+    return (opens[-1], c) if opens else None
+
+
+def _items(text, o, c):
+    """The statements of the brace group text[o..c], split at its own semicolons."""
+    cuts = [i for (i, ch, d) in _scan(text) if ch == ";" and d == 1 and o < i < c]
+    parts, last = [], o + 1
+    for i in cuts + [c]:
+        parts.append(text[last:i].strip())
+        last = i + 1
+    return [p for p in parts if p]
+
+
 def form_lines(text, layout, rng=None):
-    """One form as the lines typed into the loop.  layout "line": one line."""
-    return [text]
+    """One form as the lines typed into the loop (the loop reads until scanIsContinued says the form is complete, and
+    treats what it read as a pile).  Layouts:
+      line    the form on one line
+      braces  the last top-level { } group opened at the end of the first line, one statement per line, closed on a
+              line of its own (continuation by unmatched braces)
+      piled   a function definition as a pile: `head ==', the statements indented, closed by a comment line in column 1
+              (continuation by `==' at the end of the line: every following indented line belongs to the form, the first
+              line that is not indented ends it and is read with it)
+      paren   a line break after the first opening parenthesis (continuation by unmatched parentheses)
+    A layout that does not apply to the form gives the one-line form."""
+    if layout == "line":
+        return [text]
+    if layout in ("braces", "piled"):
+        g = _brace_group(text)
+        if g is None:
+            return [text]
+        o, c = g
+        items = _items(text, o, c)
+        if not items:
+            return [text]
+        if layout == "braces":
+            return [text[:o + 1]] + ["        " + it + (";" if n < len(items) - 1 else "") for n, it in enumerate(items)] + [text[c:]]
+        head = text[:o].rstrip()
+        if not head.endswith("==") or text[c + 1:].strip():
+            return [text]
+        return [head] + ["        " + it for it in items] + ["-- end"]
+    if layout == "paren":
+        sc = _scan(text)
+        opens = [i for (i, ch, d) in sc if ch == "(" and d == 0]
+        # not the parameter list of a definition, and not inside the first token
+        for i in opens:
+            if i > 8 and "==" not in text[i:] and text[i + 1:].strip():
+                return [text[:i + 1], "      " + text[i + 1:]]
+        return [text]
+    raise ValueError(layout)
 
 
 def render_history(prog, hist, verbose=False, layout="line"):
-    """Returns (text, steps): the text piped to the loop and, per history item, {"kind", "lines": (first, last)}."""
+    """Returns (text, steps, ends): the text piped to the loop; per history item {"k", "first", "last"} (line numbers);
+    and the line numbers at which the loop must take a step (every preamble line, the sentinels, the last line of
+    every form)."""
     _, texts = render.render_forms(prog)
-    lines = list(preamble(prog, verbose))
+    lines = []
+    for l in preamble(prog, verbose):
+        lines += l.split("\n")
     lines.append('print << "%s" << newline;' % READY)
+    ends = list(range(1, len(lines) + 1))
     steps = []
     for it in hist:
         if it["k"] in ("ok", "pre"):
             fl = form_lines(texts[it["j"] - 1][2], layout)
         else:
-            fl = [bad_text(prog, prog["cat"][it["j"] - 1])]
+            fl = form_lines(bad_text(prog, prog["cat"][it["j"] - 1]), layout)
         steps.append({"k": it["k"], "first": len(lines) + 1, "last": len(lines) + len(fl)})
         lines += fl
+        ends.append(len(lines))
     lines.append('print << "%s" << newline;' % END)
-    return "\n".join(lines) + "\n", steps
+    ends.append(len(lines))
+    return "\n".join(lines) + "\n", steps, ends
+
+
+def lines_record(rid, text, ends, real=None):
+    """A record for spec/ReplLines.tla: the lines as character codes (each with its newline)."""
+    ls = text.split("\n")
+    if ls and ls[-1] == "":
+        ls.pop()
+    rec = {"id": rid, "lines": [[ord(c) if ord(c) < 256 else 63 for c in l] + [10] for l in ls], "ends": list(ends)}
+    if real is not None:
+        rec["real"] = list(real)
+    return rec
+
+
+def harness_input(texts):
+    """The input of harness/repl_cont.c for a list of session texts."""
+    out = []
+    for t in texts:
+        ls = t.split("\n")
+        if ls and ls[-1] == "":
+            ls.pop()
+        out.append("R %d\n" % len(ls) + "".join(l + "\n" for l in ls))
+    return "".join(out)
+
+
+SHAPES = {
+    "stmt":      ['print << "a;b" << (x + 1) << newline;'],
+    "def":       ["f(a: SI): SI == { a + 1 }"],
+    "defbrace":  ["f(a: SI): SI == {", "        free g;", '        print << "}" << a;', "        a + 1", "}"],
+    "defpile":   ["f(a: SI): SI ==", "        free g", "        a + 1", "-- end"],
+    "paren":     ["print << (a +", "      (b * c)) << newline;"],
+    "brace":     ["for i in 1..2 repeat {", "        g := g + i;", "        g := g * 2", "};"],
+    "comment":   ["-- a note; not code"],
+    "direct":    ["#int verbose off"],
+    "macro":     ["SI ==> SingleInteger;"],
+    "noend":     ["g := g + 1"],
+    "strparen":  ['print << "(" << "_"{" << newline;'],
+}
+
+
+def shape_sequences(maxlen=3):
+    """All sequences of at most maxlen forms over the layout shapes: the small exhaustive family of ReplLines.tla."""
+    import itertools
+    recs = []
+    names = sorted(SHAPES)
+    for n in range(1, maxlen + 1):
+        for seq in itertools.product(names, repeat=n):
+            lines, ends = [], []
+            for nm in seq:
+                lines += SHAPES[nm]
+                ends.append(len(lines))
+            recs.append(("+".join(seq), "\n".join(lines) + "\n", ends))
+    return recs
 
 
 def batch_text(prog):
